@@ -722,6 +722,16 @@ static URI_INLINE int URI_FUNC(NormalizeSyntaxEngine)(URI_TYPE(Uri) * uri,
 			while (walker != NULL) {
 				if (!URI_FUNC(FixPercentEncodingMalloc)(&(walker->text.first),
 						&(walker->text.afterLast), memory)) {
+					/* Free the segment texts duplicated so far, doneMask does not cover them yet */
+					URI_TYPE(PathSegment) * duped = uri->pathHead;
+					while (duped != walker) {
+						if (duped->text.afterLast > duped->text.first) {
+							memory->free(memory, (URI_CHAR *)duped->text.first);
+						}
+						duped->text.first = URI_FUNC(SafeToPointTo);
+						duped->text.afterLast = URI_FUNC(SafeToPointTo);
+						duped = duped->next;
+					}
 					URI_FUNC(PreventLeakage)(uri, doneMask, memory);
 					return URI_ERROR_MALLOC;
 				}
